@@ -45,7 +45,8 @@ def twin_stage(name, cases_fn, prop="C08"):
 
 
 def stages(tier, rng, only=None):
-    out = [ac.stage("grid3x2", PID, lambda: ac.cases(grids.datasets(3, 2), BIO, SCHEMES), _nt),
+    out = [ac.stage("grid3x2", PID, lambda: ac.cases(grids.datasets(3, 2), BIO, SCHEMES,
+                                                     namings=["ints", "letters", "weird", "neg"]), _nt),
            twin_stage("moves3x2", lambda: _search_cases(grids.datasets(3, 2), SCHEMES)),
            twin_stage("moves_random", lambda: _search_cases(
                [ac.random_dataset(rng, 6, 5, nmin=3) for _ in range(200 if tier == "quick" else 2000)],
@@ -68,6 +69,9 @@ def stages(tier, rng, only=None):
         rng, flags=(0,)), _nt))
     out.append(ac.stage("larger", PID, lambda: ac.cases([ac.larger_dataset(rng, 10, 25) for _ in range(n_rand // 8)], BIO,
                                                         SCHEMES), _nt))
+    out.append(ac.stage("reuse_other_scheme", PID, lambda: ac.reuse_scheme_cases(
+        grids.datasets(3, 2)[::3] + [ac.random_dataset(rng, 6, 5, nmin=3) for _ in range(n_rand // 2)], BIO, SCHEMES,
+        rng, flags=(0,)), _nt))
     out.append(ac.stage("threshold", PID, lambda: ac.cases([ac.random_dataset(rng, 5, 4, nmin=3) for _ in range(n_rand)],
                                                            BIO, FINE), _nt))
     if tier == "thorough":
